@@ -186,6 +186,7 @@ type c15Frame struct {
 	deps      []*c15Frame
 	TableSize int           // headers: new HPACK dynamic table size announced with this block, -1 none
 	MaxFrame  int           // settings: SETTINGS_MAX_FRAME_SIZE advertised (0: not mentioned)
+	TableAnn  int           // settings: SETTINGS_HEADER_TABLE_SIZE announced + 1 (0: not mentioned)
 	Gap       time.Duration // simulated pause before this frame is completely delivered
 	gapDone   bool
 	bigFrame  bool // a physical frame with more than 16384 bytes of payload
@@ -620,6 +621,16 @@ func c15Generate(tape *simrt.Tape, tier string, illegalGoAway bool) *c15Case {
 	preface := &c15Frame{Dir: dirReq, Kind: fkPreface, Stream: -1}
 	setC := &c15Frame{Dir: dirReq, Kind: fkSettings, Stream: -1, MaxFrame: cs.MaxFrame[dirResp]}
 	setS := &c15Frame{Dir: dirResp, Kind: fkSettings, Stream: -1, MaxFrame: cs.MaxFrame[dirReq]}
+	// HEADER_TABLE_SIZE is the size of the ANNOUNCING peer's decoder table: it limits the
+	// encoder of the opposite direction. Only the receiver of a large-table direction has
+	// to announce a large value; what the sender itself announces is independent of it.
+	for _, set := range []*c15Frame{setC, setS} {
+		if need := cs.BigTable[1-set.Dir]; need > 0 {
+			set.TableAnn = []int{need, 1 << 16}[tape.Choose(2, "table-announced")] + 1
+		} else {
+			set.TableAnn = []int{0, 4096 + 1, 1024 + 1, 0 + 1, 1<<16 + 1}[tape.Choose(5, "table-announced")]
+		}
+	}
 	if twice {
 		// the second refusal well after the first, the last attempt a seeded while after it
 		if r := cs.Streams[1].resp; len(r) > 0 {
@@ -634,8 +645,8 @@ func c15Generate(tape *simrt.Tape, tier string, illegalGoAway bool) *c15Case {
 	queues := [][]*c15Frame{{preface, setC, ackC}, {setS, ackS}}
 	for i, s := range cs.Streams {
 		s.req[0].deps = append(s.req[0].deps, setC)
-		if cs.BigTable[dirReq] > 0 || cs.MaxFrame[dirReq] > 0 {
-			// the client may only enlarge its table / its frames after the server's SETTINGS allowed it
+		if cs.BigTable[dirReq] > 0 || cs.MaxFrame[dirReq] > 0 || setS.TableAnn > 0 {
+			// the client's encoder and frame sizes follow what the server's SETTINGS announced
 			s.req[0].deps = append(s.req[0].deps, setS)
 		}
 		if i > 0 {
@@ -748,6 +759,8 @@ func c15Generate(tape *simrt.Tape, tier string, illegalGoAway bool) *c15Case {
 			f.Kind = fkWindowUpdate
 		case 3:
 			f.Kind = fkSettings
+			// may change the table size allowed to the other direction's encoder mid-connection
+			f.TableAnn = []int{0, 0, 0 + 1, 1024 + 1, 4096 + 1, 1<<16 + 1}[tape.Choose(6, "noise-table-announced")]
 		}
 		first := setC
 		if f.Dir == dirResp {
@@ -778,8 +791,10 @@ type c15Encoder struct {
 	hbuf2    [2]bytes.Buffer
 	enc2     [2]*hpack.Encoder
 	diverged [2]bool
-	big      [2]int
-	bigDone  [2]bool
+	// a SETTINGS frame lowered the limit below the table size in use
+	pendingShrunk [2]bool
+	big           [2]int
+	bigDone       [2]bool
 }
 
 // c15StripSizeUpdates removes leading "dynamic table size update" instructions.
@@ -806,7 +821,7 @@ func newC15Encoder() *c15Encoder {
 		e.fr[d] = http2.NewFramer(&e.buf[d], nil)
 		e.fr[d].AllowIllegalWrites = true
 		e.enc[d] = hpack.NewEncoder(&e.hbuf[d])
-		e.enc[d].SetMaxDynamicTableSizeLimit(1 << 16)
+		// the limit stays at the default 4096 until the receiving peer's SETTINGS say otherwise
 		e.enc2[d] = hpack.NewEncoder(&e.hbuf2[d])
 	}
 	return e
@@ -824,7 +839,21 @@ func (e *c15Encoder) write(f *c15Frame) error {
 		e.buf[d].WriteString(clientPreface)
 		f.phys = nil
 	case fkSettings:
-		set := []http2.Setting{{ID: http2.SettingHeaderTableSize, Val: 1 << 16}, {ID: http2.SettingMaxConcurrentStreams, Val: 100}, {ID: http2.SettingInitialWindowSize, Val: 1 << 20}}
+		set := []http2.Setting{{ID: http2.SettingMaxConcurrentStreams, Val: 100}, {ID: http2.SettingInitialWindowSize, Val: 1 << 20}}
+		if f.TableAnn > 0 {
+			// binds the encoder of the OTHER direction from here on; lowering it makes that
+			// encoder open its next header block with the size update RFC 7541 4.2 requires
+			v, x := uint32(f.TableAnn-1), 1-d
+			set = append([]http2.Setting{{ID: http2.SettingHeaderTableSize, Val: v}}, set...)
+			if v < e.enc[x].MaxDynamicTableSize() {
+				e.pendingShrunk[x] = true
+			}
+			e.enc[x].SetMaxDynamicTableSizeLimit(v)
+			e.enc2[x].SetMaxDynamicTableSizeLimit(min(v, 4096))
+			if v == 0 {
+				e.diverged[x] = false
+			}
+		}
 		if f.MaxFrame > 0 {
 			set = append(set, http2.Setting{ID: http2.SettingMaxFrameSize, Val: uint32(f.MaxFrame)})
 		}
@@ -841,11 +870,13 @@ func (e *c15Encoder) write(f *c15Frame) error {
 		if size < 0 && e.big[d] > 0 && !e.bigDone[d] {
 			size = e.big[d]
 		}
+		f.hpackShrunk, e.pendingShrunk[d] = e.pendingShrunk[d], false
 		if size >= 0 {
 			e.bigDone[d] = true
-			f.hpackUpdate = size > 4096
-			f.hpackShrunk = uint32(size) < e.enc[d].MaxDynamicTableSize()
-			e.enc[d].SetMaxDynamicTableSize(uint32(size))
+			before := e.enc[d].MaxDynamicTableSize()
+			e.enc[d].SetMaxDynamicTableSize(uint32(size)) // never above what the receiver announced
+			f.hpackUpdate = e.enc[d].MaxDynamicTableSize() > 4096
+			f.hpackShrunk = f.hpackShrunk || e.enc[d].MaxDynamicTableSize() < before
 			e.enc2[d].SetMaxDynamicTableSize(uint32(size)) // clamped to 4096
 			if size == 0 {
 				e.diverged[d] = false // both tables are empty again
@@ -1941,6 +1972,7 @@ func c15WellformedBody(tape *simrt.Tape, o simwork.Opts, res *simwork.Result) {
 	}
 	d.planFault()
 	nDone := 0 // completion order equals the global order: the done frames are a prefix
+	annSeen, nSettings, asymSeen := [2]int{4096, 4096}, [2]int{}, false
 	d.after = func() {
 		for nDone < len(cs.Frames) && d.pos[cs.Frames[nDone].Dir] >= cs.Frames[nDone].end {
 			cs.Frames[nDone].doneAt = d.now()
@@ -1949,6 +1981,20 @@ func c15WellformedBody(tape *simrt.Tape, o simwork.Opts, res *simwork.Result) {
 				if f.Kind == fkHeaders {
 					res.Probes["headers-frame-above-16384"]++
 				}
+			}
+			if f := cs.Frames[nDone]; f.Kind == fkSettings {
+				nSettings[f.Dir]++
+				if f.TableAnn > 0 {
+					annSeen[f.Dir] = f.TableAnn - 1
+				}
+				if !asymSeen && nSettings[0] > 0 && nSettings[1] > 0 && annSeen[0] != annSeen[1] {
+					asymSeen = true
+					res.Probes["header-table-size-asymmetric"]++
+				}
+			}
+			if f := cs.Frames[nDone]; f.Kind == fkHeaders && f.hpackUpdate && annSeen[f.Dir] <= 4096 {
+				// the sender uses a large table although its own decoder table is small
+				res.Probes["large-table-one-direction-only"]++
 			}
 			if f := cs.Frames[nDone]; f.Kind == fkSettings && f.MaxFrame > 0 {
 				res.Probes["settings-max-frame-size-raised"]++
